@@ -27,7 +27,8 @@ PROPERTY Atomic
 """
 
 # workload -> number of shards (quick, thorough)
-WORKLOADS = [("W1x64", 1, 1), ("W1a64", 1, 1), ("W2", 1, 1), ("W3", 2, 4), ("W4", 1, 1), ("W4dual", 1, 1), ("W5", 2, 3)]
+WORKLOADS = [("W1x64", 1, 1), ("W1a64", 1, 1), ("W2", 1, 1), ("W3", 3, 4), ("W4", 1, 1), ("W4dual", 1, 1), ("W5", 2, 3),
+             ("W6", 1, 1), ("W7", 1, 1), ("W8", 3, 4)]
 MASKS_THOROUGH = 400      # per workload: 7 x 400 = 2800 random multi-failure patterns
 
 HARNESS_ENV = {"ASAN_OPTIONS": "detect_leaks=0:abort_on_error=0:exitcode=66:allocator_may_return_null=1",
@@ -108,6 +109,7 @@ def classify(clean, ex, lineno, sites=None):
     """ex: list of (lineno, rec) of the rejected execution; returns (key, text)"""
     head = ex[0][1]
     w, cls, ks = head.get("w", "?"), head.get("cls", "?"), head.get("k", [])
+    inplace = head.get("cont") == "inplace"
     names = [c["c"] for c in clean if c.get("e") == "Call"]
     bad = next((r for n, r in ex if n == lineno), {"e": "END-OF-FILE"})
     calls = [r for n, r in ex if r.get("e") == "Call" and n < lineno]
@@ -150,6 +152,19 @@ def classify(clean, ex, lineno, sites=None):
         kind = ("hang-in-" if "hang" in str(bad.get("why", "")) else "crash-in-") + crashed
         site = (sites or {}).get(head.get("job"), "")
         what = f"process died ({bad.get('why', 'truncated trace')}) during {crashed}" + (f": {site}" if site else "")
+    elif e == "Call" and bad.get("ph") == "F" and inplace and (bad.get("redo") or any(r.get("redo") for r in calls)):
+        rep = bad if bad.get("redo") else next(r for r in calls if r.get("redo"))
+        injected_in = rep["c"]
+        if cls == "arena":
+            tagp = "physical" if rep.get("phys") else "synthetic"
+        if bad.get("redo"):
+            kind = "redo-fails" if bad.get("r") != "Ok" and bad.get("r") != next((c["r"] for c in clean if c.get("e") == "Call" and c.get("i") == bad["i"]), None) else "redo-differs"
+            what = (f"retry in place: {bad['c']} failed with the injected failure and was repeated with memory available: the repeated call returned {bad['r']}"
+                    + (" - it cannot be completed on the same objects" if kind == "redo-fails" else " but the product (code bytes / pool size+alignment / results / contents) differs from the failure-free run"))
+        else:
+            kind = "after-redo-differs-at-" + bad["c"]
+            what = (f"retry in place: {injected_in} failed, was repeated successfully; later {bad['c']} returned {bad['r']} / left a product that differs from the failure-free run "
+                    f"(the failed call was not atomic)")
     elif e == "Call" and bad.get("ph") == "F":
         if bad.get("f"):
             injected_in = injected_in or bad["c"]
@@ -177,7 +192,7 @@ def classify(clean, ex, lineno, sites=None):
         kind = "rejected-" + str(e)
         what = json.dumps(bad)[:200]
     key = f"{w}:{cls}:{injected_in}:{kind}"
-    text = f"workload={w} class={cls} k={ks} ({tagp}) injected-in={injected_in}: {what}"
+    text = f"workload={w} class={cls} k={ks}{' cont=inplace' if inplace else ''} ({tagp}) injected-in={injected_in}: {what}"
     return key, text, tagp
 
 
@@ -243,7 +258,7 @@ def run(ctx):
             nruns += 1
             hit = any(r.get("f") for _, r in exe if r.get("e") == "Call") or any(r.get("e") == "ABORT" for _, r in exe)
             if hit:
-                ctx.distinct.add((w, head["cls"], tuple(head["k"])))
+                ctx.distinct.add((w, head["cls"], tuple(head["k"]), head.get("cont", "restart")))
                 hits_by[(w, head["cls"])] += 1
             for _, r in exe:
                 if r.get("e") == "Call" and r.get("f") and head["cls"] == "arena":
@@ -299,7 +314,7 @@ def run(ctx):
         "digests compare code-relevant observable state through public accessors (sections+bytes, labels, relocations, node lists, "
         "container contents, results of executed functions); capacities and addresses are not compared",
         "direct CodeHolder calls are skipped on a holder whose init() failed, generated code is executed only when every call that produced it returned Ok",
-        "quick tier: every k <= 400 per workload and class, beyond that ~160 strided positions; thorough: every k + ~1000 random multi-failure patterns",
+        "quick tier: every k <= 400 per workload and class, beyond that ~160 strided positions, each with both continuations (restart, retry in place); thorough: every k x both reset policies + retry in place + 400 random multi-failure patterns per workload",
         "environment: ASan+UBSan build; a sanitizer report, signal or 60 s hang of the worker becomes an ABORT line attributed to the execution in progress",
     ]
     vlib.write_evidence(ctx, "fault_enumeration",
@@ -319,7 +334,7 @@ def replay(ctx, path):
     h = heads[0]
     bdir = ctx.build("asan", "faults")
     tr = ctx.path("replay_trace.ndjson")
-    rc, _, err = vlib.run_harness(ctx, bdir, "faults", ["one", tr, h["w"], h["cls"], ",".join(str(k) for k in h["k"])], timeout=600,
+    rc, _, err = vlib.run_harness(ctx, bdir, "faults", ["one", tr, h["w"], h["cls"], ",".join(str(k) for k in h["k"])] + (["inplace"] if h.get("cont") == "inplace" else []), timeout=600,
                                   env=dict(HARNESS_ENV, VERIF_SEED=ctx.seed))
     if rc != 0:
         raise Broken(f"harness exited rc={rc}: {(err or '')[-300:]}")
